@@ -82,7 +82,10 @@ def zoo_roundtrip(ctx, n):
         for writer in ("native", "lxml"):
             try:
                 text = rb.render(obj, xctx, writer, ns_map=dict(nm) if nm else None)
-            except (SerializerError, XmlWriterError, ConverterError, XmlContextError):
+            except (SerializerError, XmlWriterError, ConverterError, XmlContextError) as ex:
+                # every zoo instance is a legal value of its model: a refusal is reported, never skipped
+                ctx.violation(f"zoo: render({type(obj).__name__}) refused a legal instance with {type(ex).__name__}: {ex}", {"obj": repr(obj)[:1500], "ns_map": repr(nm),
+                              "finding_tags": zoo_tags(obj)})
                 continue
             except Exception as ex:  # noqa: BLE001
                 ctx.violation(f"zoo: render({type(obj).__name__}) raised {type(ex).__name__}: {ex}", {"obj": repr(obj)[:1500], "ns_map": repr(nm),
